@@ -17,7 +17,8 @@
 EXTENDS Promolecule, TLC, Json, IOUtils
 
 CONSTANT NBlocks
-Traces == JsonDeserialize(IOEnv.TRACE_FILE).traces
+ASSUME TLCSet(1, JsonDeserialize(IOEnv.TRACE_FILE).traces)     \* parsed once, not once per worker
+Traces == TLCGet(1)
 
 MinR2 == 128451              \* (0.35 A)^2 in (1/1024 A)^2, rounded up
 MaxCoord == 13000            \* keeps every squared distance below 2^31
